@@ -631,6 +631,6 @@ func min(a, b int) int {
 func init() {
 	register(&Engine{Name: "handles", Props: []string{"C14"}, Cases: handCases, Run: handRun})
 	propMeta["C14"] = PropMeta{Level: "exploration",
-		Rule: "one handle-call sequence per case (Read, ReadAt, Seek with 3 whences, Write, WriteAt, WriteString, Truncate, Sync, Stat; offsets negative/0/inside/at/beyond end; buffers 0,1,size-1,size,size+7) on a file of 0..one record+1 bytes opened with a generated flag combination; every call's count, bytes, offset, error-ness and EOF signalling compared with an os.File-semantics byte-array model, then content and size after Close through a fresh open; non-trivial = at least 3 effective read/write calls; distinct = distinct (configuration, initial size, flags, call list)",
+		Rule: "one handle-call sequence per case (Read, ReadAt, Seek with 3 whences, Write, WriteAt, WriteString, Truncate, Sync, Stat; offsets negative/0/inside/at/beyond end; buffers 0,1,size-1,size,size+7) on a file of 0..one record+1 bytes opened with a generated flag combination; every call's count, bytes, offset, error-ness and EOF signalling compared with an os.File-semantics byte-array model, then content and size after Close through a fresh open; non-trivial = at least 3 effective read/write calls; distinct = distinct (configuration, initial size, flags, call list); files of 40 MiB with single calls of 33-39 MiB (beyond every internal staging size), every Read has to return the full count of a byte-array file; 'giant' cases: head, Seek(2^31-4 or beyond), tail - sizes, offsets and the bytes at both ends and in the middle on a fresh open and after a rebuild, without holding the file's bytes",
 		Assumptions: []string{"a full-count read that carries io.EOF together with its last bytes is accepted (io.Reader contract)", "the cursor after WriteAt is reference-ambiguous and is pinned by a Seek", "WriteAt on O_APPEND handles is reference-ambiguous and not generated", "op shapes of the open findings (in-place writes with the memory write cache, seeks past the end in read mode) only in their witness cases"}}
 }
